@@ -222,6 +222,7 @@ FinalizeArgs(e, pre, post) ==
                                                   /\ post.reg[o].key \in ({cx.outs[i].k : i \in DOMAIN cx.outs} \cup RangeOf(lkeys))}
              ELSE {} IN
   [sl |-> e.sl, stage |-> e.stage, rep |-> e.rep, ttl |-> e.ttl,
+   rkern |-> IF Has(e, "tamper") /\ e.tamper = "bogus" THEN "part" ELSE "rpart",
    valid |-> (Ok(e) \/ e.res \in {"err:proof", "err:notfound"}),
    proofok |-> e.res # "err:proof", hasproof |-> e.hasproof,
    rout |-> IF e.sl \in DOMAIN post.body THEN post.body[e.sl].outs \ own ELSE {},
@@ -249,28 +250,28 @@ TFinalize ==
      /\ Step(hv2)
 
 \* ---- cancel -----------------------------------------------------------
+\* the driver runs an explicit refresh right before every cancel, so `st` is the
+\* state the cancel batch starts from (the refresh inside owner::cancel_tx finds
+\* nothing left to do) and the rollback is judged on observed states only
 TCancel ==
   /\ IsEv("cancel")
   /\ LET e == E  w == e.w
          a == [id |-> e.id, sl |-> e.sl]
-         rf == RefreshFull(st, w)
-         mid == LastOr(rf.steps, st)          \* state after the refresh part (model)
          m == CancelMatches(st, w, a) IN
      /\ IF Ok(e)
-        THEN \* exact rollback of the cancel batch, measured against the observed
-             \* post-state and the model's post-refresh state
-             /\ Check(Cardinality(m) = 1, "C05", "CancelTargetUnique", e, "")
-             /\ (Cardinality(m) = 1 /\ rf.res = "ok") =>
+        THEN /\ Check(Cardinality(m) = 1, "C05", "CancelTargetUnique", e, "")
+             /\ (Cardinality(m) = 1) =>
                   LET t == CHOOSE x \in m : TRUE IN
-                  /\ Check(t \in DOMAIN mid.w[w].txs /\ CancelIsRollback(mid, S2, w, t), "C05", "CancelIsRollback", e, "")
+                  /\ Check(CancelIsRollback(st, S2, w, t), "C05", "CancelIsRollback", e, "")
                   /\ Check(~st.w[w].txs[t].conf /\ st.w[w].txs[t].ty \in {"TxSent", "TxReceived", "TxReverted"},
                            "C05", "CancelRefused", e, "cancelled a non-cancellable entry")
-        ELSE \* refused: nothing but the refresh happened
-             /\ (e.res \in {"err:notfound", "err:notcancellable"} /\ rf.res = "ok") =>
-                   Check(S2.w[w] = mid.w[w], "C05", "CancelRefusedUnchanged", e, "")
-     /\ LET r == Cancel(st, w, a, aux.nodeUp) IN
-        /\ CheckMatch((r.res = "ok") = Ok(e), e, "Cancel:res:" \o r.res)
-        /\ MatchState(LastOr(r.steps, st), e, "Cancel")
+        ELSE \* refused: nothing changes
+             (e.res \in {"err:notfound", "err:notcancellable"}) =>
+                   Check(S2.w[w] = st.w[w], "C05", "CancelRefusedUnchanged", e, "")
+     /\ IF ~CheckM THEN TRUE
+        ELSE LET r == Cancel(st, w, a, aux.nodeUp) IN
+             /\ CheckMatch((r.res = "ok") = Ok(e), e, "Cancel:res:" \o r.res)
+             /\ MatchState(LastOr(r.steps, st), e, "Cancel")
      /\ Step(hv)
 
 \* ---- post / mine / node ----------------------------------------------------
@@ -281,6 +282,9 @@ TMine ==
   /\ IsEv("mine")
   /\ LET e == E IN
      /\ CheckMatch(Ok(e) => (Len(S2.chain) = Len(st.chain) + 1 /\ LastOf(S2.chain).txs = ToSet(e.txs)), e, "Mine")
+     /\ (Ok(e) /\ e.to # "") =>
+           Check(\A k \in (DOMAIN S2.w[e.to].outs) \ (DOMAIN st.w[e.to].outs) : PathFresh(hv, e.to, k),
+                 "C15", "PathsUnique", e, "coinbase")
      /\ Step(hv)
 TNode == /\ (IsEv("node_up") \/ IsEv("node_down"))
          /\ l' = l + 1 /\ st' = S2 /\ hv' = hv /\ aux' = [aux EXCEPT !.nodeUp = (E.ev = "node_up")]
@@ -342,7 +346,8 @@ TRefresh ==
                    (st.w[w].txs[t].ty \in {"TxSent", "TxReceived"} /\ t \notin expired /\ t \in DOMAIN S2.w[w].txs)
                      => S2.w[w].txs[t].ty \notin {"TxSentCancelled", "TxReceivedCancelled"},
                 "C17", "NotExpiredUntouched", e, "refresh")
-     /\ IF ~aux.nodeUp THEN CheckMatch(Ok(e) /\ ~e.refreshed /\ S2 = st, e, "RefreshDown")
+     /\ IF ~CheckM THEN TRUE
+        ELSE IF ~aux.nodeUp THEN CheckMatch(Ok(e) /\ ~e.refreshed /\ S2 = st, e, "RefreshDown")
         ELSE LET r == RefreshFull(st, w) IN
              /\ CheckMatch((r.res = "ok") = Ok(e), e, "Refresh:res:" \o r.res)
              /\ MatchState(LastOr(r.steps, st), e, "Refresh")
@@ -356,16 +361,27 @@ TAccount ==
               "C04", "AccountOpsTouchNoOutput", e, "")
      /\ Step(hv)
 
+\* ---- build_coinbase (foreign API) --------------------------------------------
+TBuildCoinbase ==
+  /\ IsEv("build_coinbase")
+  /\ LET e == E  w == e.w
+         r == BuildCoinbase(st, w, [fees |-> e.fees, h |-> e.h, key |-> e.key])
+         newK == (DOMAIN S2.w[w].outs) \ (DOMAIN st.w[w].outs) IN
+     /\ Check(ForeignOnlyAdds(st, S2, w, e.key), "C07", "ForeignOnlyAdds", e, "build_coinbase")
+     /\ Check(\A k \in newK : PathFresh(hv, w, k), "C15", "PathsUnique", e, "build_coinbase")
+     /\ Ok(e) => MatchState(LastOf(r.steps), e, "BuildCoinbase")
+     /\ Step(hv)
+
 \* ---- anything else: observe only ------------------------------------------
 Known == {"reset", "init_send", "lock", "receive", "finalize", "cancel", "post", "mine", "node_up", "node_down",
-          "refresh", "create_account", "set_active"}
+          "refresh", "create_account", "set_active", "build_coinbase"}
 TOther == /\ l <= Len(Rec) /\ Rec[l].ev \notin Known
           /\ Step(hv)
 
 TInit == /\ l = 1 /\ st = [w |-> <<>>, chain |-> <<>>, pool |-> {}, body |-> <<>>, reg |-> <<>>, nrep |-> <<>>]
          /\ hv = EmptyHist({}) /\ aux = [nodeUp |-> TRUE, dirty |-> {}]
 TNext == \/ TReset \/ TInitSend \/ TLock \/ TReceive \/ TFinalize \/ TCancel \/ TPost \/ TMine \/ TNode
-         \/ TRefresh \/ TAccount \/ TOther
+         \/ TRefresh \/ TAccount \/ TBuildCoinbase \/ TOther
 TSpec == TInit /\ [][TNext]_tvars
 
 \* every line must have been consumed (the spec has no way to get stuck other
